@@ -42,6 +42,7 @@ type replayParam struct {
 
 type replayField struct {
 	Name, Kind, GoT, Term string
+	Off, Len, Elem       string // Kind "bytes": Term is the reference
 }
 
 type replayInfo struct {
@@ -86,9 +87,12 @@ func (x *Exec) buildReplayInfo(fn *ssa.Function, fr *frame) *replayInfo {
 	q := qualifierFor(pkg, ri)
 	c := x.c
 	var argNames []string
-	scalarFields := func(rp *replayParam, ST types.Type, ref Term) {
+	// scalarFields lists the integer, boolean and []byte fields of the struct an argument
+	// points to (nested struct values included), with the terms that denote them at entry.
+	var walk func(rp *replayParam, root types.Type, ST types.Type, ref Term, goPath, keyPath string, depth int)
+	walk = func(rp *replayParam, root types.Type, ST types.Type, ref Term, goPath, keyPath string, depth int) {
 		st, ok := ST.Underlying().(*types.Struct)
-		if !ok {
+		if !ok || depth > 2 {
 			return
 		}
 		for i := 0; i < st.NumFields(); i++ {
@@ -96,22 +100,41 @@ func (x *Exec) buildReplayInfo(fn *ssa.Function, fr *frame) *replayInfo {
 			if !f.Exported() && f.Pkg() != pkg {
 				continue
 			}
-			b, ok := f.Type().Underlying().(*types.Basic)
-			if !ok || b.Info()&(types.IsInteger|types.IsBoolean) == 0 {
-				continue
+			gp, kp := goPath+f.Name(), keyPath+"."+f.Name()
+			at := func(lf leaf) string {
+				arr := x.heapGet(fr.entrySt, "F:"+typeKey(root)+":"+kp+lf.path, c.heapSort(lf.sort, 0))
+				return "(select " + arr.S + " " + ref.S + ")"
 			}
-			kind := "int"
-			if b.Info()&types.IsBoolean != 0 {
-				kind = "bool"
+			switch u := f.Type().Underlying().(type) {
+			case *types.Basic:
+				if u.Info()&(types.IsInteger|types.IsBoolean) == 0 {
+					continue
+				}
+				kind := "int"
+				if u.Info()&types.IsBoolean != 0 {
+					kind = "bool"
+				}
+				ls := c.leaves(f.Type())
+				if len(ls) != 1 {
+					continue
+				}
+				rp.Fields = append(rp.Fields, replayField{Name: gp, Kind: kind, GoT: types.TypeString(f.Type(), q), Term: at(ls[0])})
+			case *types.Slice:
+				b, isB := u.Elem().Underlying().(*types.Basic)
+				ls := c.leaves(f.Type())
+				if !isB || b.Kind() != types.Uint8 || len(ls) != 4 {
+					continue
+				}
+				el := c.leaves(u.Elem())[0]
+				earr := x.heapGet(fr.entrySt, "E:"+typeKey(u.Elem())+":[]", c.heapSort(el.sort, 1))
+				rp.Fields = append(rp.Fields, replayField{Name: gp, Kind: "bytes", GoT: types.TypeString(f.Type(), q),
+					Term: at(ls[0]), Off: at(ls[1]), Len: at(ls[2]), Elem: earr.S})
+			case *types.Struct:
+				walk(rp, root, f.Type(), ref, gp+".", kp, depth+1)
 			}
-			ls := c.leaves(f.Type())
-			if len(ls) != 1 {
-				continue
-			}
-			arr := x.heapGet(fr.entrySt, "F:"+typeKey(ST)+":."+f.Name(), c.heapSort(ls[0].sort, 0))
-			rp.Fields = append(rp.Fields, replayField{Name: f.Name(), Kind: kind, GoT: types.TypeString(f.Type(), q), Term: "(select " + arr.S + " " + ref.S + ")"})
 		}
 	}
+	scalarFields := func(rp *replayParam, ST types.Type, ref Term) { walk(rp, ST, ST, ref, "", "", 0) }
 	for i, p := range fn.Params {
 		v := fr.params[p.Name()]
 		T := p.Type()
@@ -321,8 +344,38 @@ func tryReplay(repo string, r *FnResult, o *Obligation) (rec map[string]any, pan
 	// scalar fields of struct arguments, one by one (a field the obligation never mentions is
 	// not declared in its query; it then keeps the zero value)
 	fieldVals := map[string]string{}
+	fieldBytes := map[string][]byte{}
 	for _, p := range ri.Params {
 		for _, f := range p.Fields {
+			if f.Kind == "bytes" {
+				hv, ok := getValues(o.script, pins, []string{f.Term, f.Off, f.Len}, 10*time.Second)
+				if !ok {
+					continue
+				}
+				ref, _ := smtInt(hv[f.Term])
+				n, _ := smtInt(hv[f.Len])
+				if ref == 0 || n < 0 || n > replayMaxLen {
+					continue
+				}
+				for _, t := range []string{f.Term, f.Off, f.Len} {
+					pins = append(pins, fmt.Sprintf("(assert (= %s %s))", t, hv[t]))
+				}
+				var ts []string
+				for i := int64(0); i < n; i++ {
+					ts = append(ts, fmt.Sprintf("(select (select %s %s) (+ %s %d))", f.Elem, f.Term, f.Off, i))
+				}
+				bs := make([]byte, n)
+				if cv, ok := getValues(o.script, pins, ts, 30*time.Second); ok {
+					for i, t := range ts {
+						if b, ok := smtInt(cv[t]); ok {
+							bs[i] = byte(b)
+						}
+						pins = append(pins, fmt.Sprintf("(assert (= %s %s))", t, cv[t]))
+					}
+				}
+				fieldBytes[p.Name+"."+f.Name] = bs
+				continue
+			}
 			if fv, ok := getValues(o.script, pins, []string{f.Term}, 10*time.Second); ok {
 				fieldVals[f.Term] = fv[f.Term]
 				pins = append(pins, fmt.Sprintf("(assert (= %s %s))", f.Term, fv[f.Term]))
@@ -415,6 +468,13 @@ func tryReplay(repo string, r *FnResult, o *Obligation) (rec map[string]any, pan
 			src.WriteString(fmt.Sprintf("\tvar %s %s\n", p.Name, p.GoT))
 		}
 		for _, f := range p.Fields {
+			if f.Kind == "bytes" {
+				if bs, ok := fieldBytes[p.Name+"."+f.Name]; ok {
+					src.WriteString(fmt.Sprintf("\t%s.%s = %s(%q)\n", p.Name, f.Name, f.GoT, string(bs)))
+					inputs[p.Name+"."+f.Name] = fmt.Sprintf("%x", bs)
+				}
+				continue
+			}
 			v, ok := fieldVals[f.Term]
 			if !ok {
 				continue
